@@ -976,6 +976,15 @@ func typeAssert(instr *ssa.TypeAssert, itf iface) value {
 
 // callBuiltin interprets a call to builtin fn with arguments args,
 // returning its result.
+// isAggregate reports whether values of type T are represented by a mutable Go slice (struct, array).
+func isAggregate(T types.Type) bool {
+	switch T.Underlying().(type) {
+	case *types.Struct, *types.Array:
+		return true
+	}
+	return false
+}
+
 func callBuiltin(caller *frame, fn *ssa.Builtin, args []value) value {
 	switch fn.Name() {
 	case "append":
@@ -993,7 +1002,17 @@ func callBuiltin(caller *frame, fn *ssa.Builtin, args []value) value {
 			}
 			return arg0
 		}
-		// append([]T, ...[]T) []T
+		// append([]T, ...[]T) []T. Elements of struct or array type are VALUES: each appended cell gets its own
+		// copy (the upstream interpreter shared the element's representation between the two slices, so that a
+		// later in-place field update through one slice was visible through the other).
+		if st, ok := fn.Type().(*types.Signature).Params().At(0).Type().Underlying().(*types.Slice); ok && isAggregate(st.Elem()) {
+			dst, src := args[0].([]value), args[1].([]value)
+			snap := make([]value, len(src)) // the source may overlap the destination's spare capacity (memmove semantics)
+			for k := range src {
+				snap[k] = load(st.Elem(), &src[k])
+			}
+			return append(dst, snap...)
+		}
 		return append(args[0].([]value), args[1].([]value)...)
 
 	case "copy": // copy([]T, []T) int or copy([]byte, string) int
@@ -1001,6 +1020,19 @@ func callBuiltin(caller *frame, fn *ssa.Builtin, args []value) value {
 		if _, ok := src.(string); ok {
 			params := fn.Type().(*types.Signature).Params()
 			src = caller.i.conv(params.At(0).Type(), params.At(1).Type(), src)
+		}
+		if st, ok := fn.Type().(*types.Signature).Params().At(0).Type().Underlying().(*types.Slice); ok && isAggregate(st.Elem()) {
+			// element-wise value copy (see append); copy handles overlap like memmove: go through a snapshot
+			d, sv := args[0].([]value), src.([]value)
+			n := min(len(d), len(sv))
+			snap := make([]value, n)
+			for k := 0; k < n; k++ {
+				snap[k] = load(st.Elem(), &sv[k])
+			}
+			for k := 0; k < n; k++ {
+				d[k] = snap[k]
+			}
+			return n
 		}
 		return copy(args[0].([]value), src.([]value))
 
